@@ -31,6 +31,11 @@ CHECKS = {
    "Generated-history search: the hook fires exactly where the reader has observed EOF without a complete line and the harness performs the writer's next append there, so every placement of appends relative to reader observations is reachable deterministically; delivered lines must equal the content's newline-terminated lines, once, in order. All poll subsets for all contents up to 5/8 bytes over {a, é, €, newline} are enumerated. Exploration, not proof; a truly parallel writer is not run (see level_note).",
    "Equivalence assumption: for a sequential reader of an append-only file only the placement of appends relative to the reader's EOF observations matters. The seek done by FollowFileExecutor::new is replicated by the harness at iterator level.",
    "DESIGN.md §3 C10"),
+ "C12": (True,
+   "property-based testing: reference model of line splitting / file order vs the real batch executor; metamorphic multi-file = concatenation; per-case enumeration of all splits into files",
+   "Generated-input search: byte contents built from line bodies and terminators are fed through the real FileExecutor (SELECT input, COUNT/ARRAY_AGG, joined-file loader, selective table) and the transcript of lines the query saw is compared with a model line splitter; total_lines is compared too; inputs of up to 6 lines are split into files in all 2^(n-1) ways. Exploration, not proof.",
+   "The all-admitting table '(.*)' makes query output a transcript of presented lines; a CR before LF is accepted kept or stripped.",
+   "DESIGN.md §3 C12"),
 }
 
 NOT_YET = {
